@@ -362,6 +362,8 @@ def load_corpus(prop: str) -> list[dict]:
 
 def write_replay(prop: str, failure: dict) -> str:
     d = os.path.join(VERIF, "replays")
+    if os.environ.get("VERIF_NO_EVIDENCE"):
+        d = os.path.join("/tmp", "vp_selftest_replays")
     os.makedirs(d, exist_ok=True)
     name = f"{prop}_{hashlib.blake2b(failure['bucket'].encode(), digest_size=5).hexdigest()}.json"
     path = os.path.join(d, name)
@@ -372,6 +374,8 @@ def write_replay(prop: str, failure: dict) -> str:
 
 def write_evidence(prop, tier, seed, acc: Acc, meta: dict, wall: float, violations: int):
     d = os.path.join(VERIF, "evidence")
+    if os.environ.get("VERIF_NO_EVIDENCE"):  # self-test runs against scratch copies
+        d = os.path.join("/tmp", "vp_selftest_evidence")
     os.makedirs(d, exist_ok=True)
     cov = {
         "evaluations": acc.evaluations,
